@@ -213,7 +213,7 @@ def stage_layering(i, rec, root, emb):
 # ------------------------------------------------------------------------------------------ partitions (C06)
 
 PART_LINES = ['2020-06-01 BUY AAA 10 @ 5', '2020-06-20 SELL AAA 4 @ 8 FEES 1 # sold', '# a note', '2020-06-25 BUY AAA 3 @ 6', '2020-07-30 SELL AAA 2 @ 9']
-EOL = {'lf': '\n', 'crlf': '\r\n', 'none': ''}
+EOL = {'lf': '\n', 'crlf': '\r\n', 'cr': '\r', 'none': ''}
 
 
 def stage_partition(i, rec, root, ref):
@@ -227,7 +227,7 @@ def stage_partition(i, rec, root, ref):
         if not ls:
             continue
         e = rec['eol'][f - 1]
-        sep = '\r\n' if e == 'crlf' else '\n'
+        sep = {'crlf': '\r\n', 'cr': '\r'}.get(e, '\n')
         body = sep.join(ls) + EOL[e]
         name = f'part{f}.cgt'
         open(os.path.join(d, name), 'w', newline='').write(body)
@@ -237,10 +237,12 @@ def stage_partition(i, rec, root, ref):
     rc, so, se = run(d, home, ['report', '--format', 'json'] + files)
     if crashed(rc):
         return [finding('C15', 'crash', f'cgt-tool crashed (exit {rc})', inp, i)], 1
+    # with CR / CRLF endings the same deviation is also a C13 matter (line endings never change what is parsed)
+    props = ['C06'] + (['C13'] if any(x in ('cr', 'crlf') for x in rec['eol']) else [])
     if rc != 0:
-        return [finding('C06', 'partition_rejected', f'the ledger is accepted as one file but refused when split over {len(files)} files: {se[-300:].decode(errors="replace")}', inp, i)], 1
+        return [finding(p, 'partition_rejected', f'the ledger is accepted as one file but refused when split over {len(files)} files ({"/".join(rec["eol"])} line endings): {se[-300:].decode(errors="replace")}', inp, i) for p in props], 1
     if report_core(so) != ref:
-        return [finding('C06', 'partition_changes_report', f'the report for the ledger split over {len(files)} files differs from the single-file report', inp, i)], 1
+        return [finding(p, 'partition_changes_report', f'the report for the ledger split over {len(files)} files ({"/".join(rec["eol"])} line endings) differs from the single-file report', inp, i) for p in props], 1
     return [], 1
 
 
@@ -266,7 +268,11 @@ def cli_family(tier):
     layers = [r for r in recs if r['kind'] == 'layering']
     parts = [r for r in recs if r['kind'] == 'partition']
     if tier == 'quick':
-        parts = parts[::4]
+        # one line-ending pattern per assignment, rotating through the patterns
+        groups = {}
+        for r in parts:
+            groups.setdefault(tuple(r['assign']), []).append(r)
+        parts = [sorted(rs, key=lambda r: r['eol'])[k % len(rs)] for k, (a, rs) in enumerate(sorted(groups.items()))]
     root = tempfile.mkdtemp(prefix='cgtv_cli_', dir=workdir('cli'))
     findings, runs = [], 0
     counters = {'pipeline_scenarios': len(pipes), 'layering_configs': len(layers), 'partitions': len(parts),
